@@ -48,6 +48,11 @@ OkData(dl) ==
   /\ \A i \in DOMAIN dl.parts : (~dl.parts[i].chunk => dl.parts[i].comp = "" /\ dl.parts[i].n > 0)
   /\ (dl.defs = "perchunk" => \A i \in DOMAIN dl.parts : dl.parts[i].chunk)        \* messages outside chunks need their definitions up front
 
+(* "For MCAPs that include Chunk Index records in the summary section, all Message records should be written into
+   Chunk records": a layout that advertises an index must not leave messages outside chunks *)
+AllInChunks(dl) == \A i \in DOMAIN dl.parts : dl.parts[i].chunk \/ dl.parts[i].n = 0
+Indexed(l) == \E i \in DOMAIN l.summary : l.summary[i] = "ChunkIndex"
+
 OneData == [parts |-> <<[n |-> 1, comp |-> "", chunk |-> TRUE], [n |-> NMsgs - 1, comp |-> "zstd", chunk |-> TRUE]>>, defs |-> "upfront"]
 
 Layouts ==
@@ -55,9 +60,10 @@ Layouts ==
         {[data |-> OneData, summary |-> s, msgidx |-> mi, sumoffs |-> so, crc |-> TRUE, unknown |-> {}, pad |-> 0] :
            s \in {a \in Arrangements(Groups) : LegalSummary(a)}, mi \in BOOLEAN, so \in BOOLEAN}
     [] Mode = "data" ->
-        {[data |-> dl, summary |-> s, msgidx |-> TRUE, sumoffs |-> TRUE, crc |-> c, unknown |-> {}, pad |-> 0] :
-           dl \in {x \in DataLayouts : OkData(x)},
-           s \in {CanonSummary, <<"ChunkIndex", "Channel", "Schema">>, <<>>}, c \in BOOLEAN}
+        {l \in {[data |-> dl, summary |-> s, msgidx |-> TRUE, sumoffs |-> TRUE, crc |-> c, unknown |-> {}, pad |-> 0] :
+                  dl \in {x \in DataLayouts : OkData(x)},
+                  s \in {CanonSummary, <<"ChunkIndex", "Channel", "Schema">>, <<"Channel", "Statistics", "Schema">>, <<>>}, c \in BOOLEAN}
+           : Indexed(l) => AllInChunks(l.data)}
     [] Mode = "unknown" ->
         {[data |-> OneData, summary |-> CanonSummary, msgidx |-> TRUE, sumoffs |-> TRUE, crc |-> TRUE, unknown |-> u, pad |-> p] :
            u \in SUBSET {"top0", "top1", "top2", "inchunk0", "inchunk1", "inchunkend", "sum0", "sum1", "sumend", "afterchunk"}, p \in {0, 3}}
@@ -98,11 +104,14 @@ Init == lay \in Layouts /\ done = FALSE
 Next == ~done /\ done' = TRUE /\ UNCHANGED lay
 Spec == Init /\ [][Next]_vars
 
-(* C12 on the model: what the summary pass extracts depends on which groups are present, not on their order *)
+(* C12 on the model: what the summary pass extracts depends on which groups are present, not on their order.
+   Every arrangement is compared with the canonical arrangement of the same groups (transitivity gives the rest). *)
+CanonOf(sm) == SelectSeq(CanonSummary, LAMBDA g : \E i \in DOMAIN sm : sm[i] = g)
 OrderIndependent ==
-  \A sel \in {{}, {0}, {1}} :
-    \A other \in {a \in Arrangements(Groups) : SameGroups(a, lay.summary)} :
-      SummaryPass(lay, sel) = SummaryPass([lay EXCEPT !.summary = other], sel)
+  \A sel \in {{}, {0}, {1}} : SummaryPass(lay, sel) = SummaryPass([lay EXCEPT !.summary = CanonOf(lay.summary)], sel)
+(* the pre-fix pass is NOT order independent: kept as a regression witness (checked to be violated by ./check C12 --selftest) *)
+OldOrderIndependent ==
+  \A sel \in {{}, {0}, {1}} : SummaryPassOld(lay, sel) = SummaryPassOld([lay EXCEPT !.summary = CanonOf(lay.summary)], sel)
 
 Export == done => PrintT(<<"LAYOUT", ToJson(lay)>>)
 ==========================================================================
